@@ -1,6 +1,6 @@
 SPECIFICATION Spec
 CONSTANTS
-  MaxEdits = 6
+  MaxEdits = 9
   Editable <- MC_OptFields
   UseBad = FALSE
   UseGood = TRUE
